@@ -112,7 +112,11 @@ func (p *c06Prog) storeLeaves(u *wgen.Universe, val wgen.Expr) {
 }
 
 func c06Case(c *run.Ctx, id string, seed uint64) run.Outcome {
-	g := wgen.New(seed, wgen.Config{Off: wgen.SafeOff("fn.select.vec-cond")})
+	// f32 % is generated here although the SPIR-V backend evaluates it wrongly at run time (finding F31): a tree that
+	// contains it is only placed in contexts where the front end must fold it, never in the run-time form
+	off := wgen.SafeOff("fn.select.vec-cond")
+	delete(off, "op.%.f32")
+	g := wgen.New(seed, wgen.Config{Off: off})
 	u := g.U
 	r := run.NewRng(seed ^ 0xC06)
 	t := c06Types(u, r)
@@ -120,8 +124,17 @@ func c06Case(c *run.Ctx, id string, seed uint64) run.Outcome {
 	ops := opSet(e)
 	ctx := c06Contexts[r.Intn(len(c06Contexts))]
 	scalarInt := t == wgen.I32 || t == wgen.U32
+	floatRem := false
+	wgen.WalkExpr(e, func(x wgen.Expr) {
+		if b, ok := x.(*wgen.Binary); ok && b.Op == "%" && b.Ty != nil && b.Ty.Scalar() == wgen.F32 {
+			floatRem = true
+		}
+	})
 	if !scalarInt && (ctx == "switch-case" || ctx == "array-size" || ctx == "workgroup-size") {
 		ctx = c06Contexts[r.Intn(6)]
+	}
+	if floatRem && ctx == "runtime-form" {
+		ctx = c06Contexts[r.Intn(5)]
 	}
 	p := c06Skeleton(u)
 	val, cerr := wref.ConstEval(p.m, e)
